@@ -25,18 +25,19 @@ Proof.
   unfold send_response. rewrite E. reflexivity.
 Qed.
 
-Lemma start_titan_upload_tie : forall mw up ip fp s,
-  gen_start_titan_upload mw up ip fp s = start_upload up s.
+Lemma start_titan_upload_tie : forall mw up ucf ip fp s,
+  gen_start_titan_upload send_error mw up ip fp (upcall_of ucf) s = start_upload up ucf s.
 Proof.
-  intros mw up ip fp s. unfold gen_start_titan_upload, start_upload, tline, spawn.
-  destruct s as [b l a t c ti r cl se n p]; cbn [titan content].
-  destruct t as [t|]; destruct up; reflexivity.
+  intros mw up ucf ip fp s. unfold gen_start_titan_upload, start_upload, upload_failed, upcall_of, tline, spawn.
+  destruct (titan s) as [t|] eqn:Et; destruct up; cbn [negb orb]; try reflexivity.
+  destruct ucf as [msg|]; [|reflexivity].
+  cbv zeta. destruct (send_error s 40 (lit "Upload error: " ++ msg)) as [s' b']. reflexivity.
 Qed.
 
-Lemma process_titan_upload_tie : forall mw up ip fp s,
-  gen_process_titan_upload send_error (start_upload up) mw up ip fp s = process_titan_upload mw up ip fp s.
+Lemma process_titan_upload_tie : forall mw up ucf ip fp s,
+  gen_process_titan_upload send_error (start_upload up ucf) mw up ip fp s = process_titan_upload mw up ucf ip fp s.
 Proof.
-  intros mw up ip fp s. unfold gen_process_titan_upload, process_titan_upload.
+  intros mw up ucf ip fp s. unfold gen_process_titan_upload, process_titan_upload.
   cbv zeta. rewrite !repair.
   change (set_await s false) with (upd_await s false).
   generalize (upd_await s false); clear s; intro s.
@@ -45,11 +46,11 @@ Proof.
   destruct t as [t|]; destruct up; destruct mw; reflexivity.
 Qed.
 
-Lemma handle_titan_url_tie : forall ip6 mw up ip fp s url,
-  gen_handle_titan_url send_error (process_titan_upload mw up ip fp) mw up ip fp ip6 s url
-  = handle_titan_url ip6 mw up ip fp s url.
+Lemma handle_titan_url_tie : forall ip6 mw up ucf ip fp s url,
+  gen_handle_titan_url send_error (process_titan_upload mw up ucf ip fp) mw up ip fp ip6 s url
+  = handle_titan_url ip6 mw up ucf ip fp s url.
 Proof.
-  intros ip6 mw up ip fp s url. unfold gen_handle_titan_url, handle_titan_url.
+  intros ip6 mw up ucf ip fp s url. unfold gen_handle_titan_url, handle_titan_url.
   cbv zeta. rewrite !repair.
   destruct (negb up); [fin|].
   destruct (titan_from_line ip6 url) as [t|k e|]; [|fin|fin].
@@ -68,12 +69,12 @@ Proof.
   fin.
 Qed.
 
-Lemma data_received_tie : forall ip6 handler mw up ip fp s d,
-  gen_data_received send_error (handle_titan_url ip6 mw up ip fp) (handle_gemini ip6 handler mw ip fp)
-                    (process_titan_upload mw up ip fp) s d
-  = data_received ip6 handler mw up ip fp s d.
+Lemma data_received_tie : forall ip6 handler mw up ucf ip fp s d,
+  gen_data_received send_error (handle_titan_url ip6 mw up ucf ip fp) (handle_gemini ip6 handler mw ip fp)
+                    (process_titan_upload mw up ucf ip fp) s d
+  = data_received ip6 handler mw up ucf ip fp s d.
 Proof.
-  intros ip6 handler mw up ip fp s d. unfold gen_data_received, data_received.
+  intros ip6 handler mw up ucf ip fp s d. unfold gen_data_received, data_received.
   cbv zeta. rewrite !repair.
   change (upd_buf s (buf s ++ d)) with (set_buf s (buf s ++ d) (line_rcvd s)).
   generalize (set_buf s (buf s ++ d) (line_rcvd s)); clear s; intro s.
@@ -93,11 +94,11 @@ Proof.
     fin.
 Qed.
 
-Lemma connection_lost_tie : forall ip6 handler mw up ip fp s,
+Lemma connection_lost_tie : forall ip6 handler mw up ucf ip fp s,
   tr s = true ->
-  step ip6 handler mw up ip fp s ELost = gen_connection_lost s.
+  step ip6 handler mw up ucf ip fp s ELost = gen_connection_lost s.
 Proof.
-  intros ip6 handler mw up ip fp s H. unfold step, gen_connection_lost. rewrite H. reflexivity.
+  intros ip6 handler mw up ucf ip fp s H. unfold step, gen_connection_lost. rewrite H. reflexivity.
 Qed.
 
 Lemma timeout_bytes :
@@ -105,11 +106,11 @@ Lemma timeout_bytes :
   = timeout_line.
 Proof. vm_compute. reflexivity. Qed.
 
-Lemma handle_timeout_tie : forall ip6 handler mw up ip fp s,
+Lemma handle_timeout_tie : forall ip6 handler mw up ucf ip fp s,
   timer s = TArmed ->
-  step ip6 handler mw up ip fp s ETimer = gen_handle_timeout (set_timer s TFired).
+  step ip6 handler mw up ucf ip fp s ETimer = gen_handle_timeout (set_timer s TFired).
 Proof.
-  intros ip6 handler mw up ip fp s H. unfold step, gen_handle_timeout. rewrite H.
+  intros ip6 handler mw up ucf ip fp s H. unfold step, gen_handle_timeout. rewrite H.
   rewrite timeout_bytes.
   generalize timeout_line; intro tl.
   destruct s as [b l a t c ti r cl se n p].
